@@ -4,9 +4,12 @@ open Emboss.Fmt
 #print axioms C11_total
 #print axioms C11_total_subtree
 #print axioms C11_tokens_preserved
-#print axioms C11_sanity_agrees_partial
-#print axioms C11_sanity_agrees_of_length
-#print axioms C11_sanity_agrees_fixed
-#print axioms C11_sanity_agrees_counterexample
-#print axioms C11_render_separable_counterexample
-#print axioms C11_idempotence_counterexample
+#print axioms C11_render_separable
+#print axioms C11_table_normal
+#print axioms C11_table_comment
+#print axioms C11_format_factors_partial
+#print axioms C11_format_fixed_point_partial
+#print axioms C11_layout_passes_idempotent
+#print axioms C11_sanity_agrees
+#print axioms C11_sanity_reports_first_difference
+#print axioms C11_sanity_count_differs
